@@ -2,8 +2,11 @@ package main
 
 // C08 — write authorisation. Every decision-table row is materialised (user record, board header, moderator
 // cache, friend file, ban tag, cool-down word, article owner) and pushed through ptt.NewPost / Recommend /
-// EditPost / CrossPost / CheckPostPerm2 / CheckPostRestriction; the target board's .DIR, its directory listing
-// and the author's .PASSWDS record are compared before / after every call.
+// EditPost / CrossPost / CheckPostPerm2 / CheckPostRestriction; the index and the directory (names, sizes, mtimes)
+// of EVERY board of the scratch BBS — target, cross-post source, the log boards, the rest — and the author's
+// .PASSWDS record are compared before / after every call. Extended rows also plant the owner bytes of the addressed
+// article and the cross-post source board (attributes, level, limits, ban, moderator, friend). Op 7 / op 8 call
+// getRestrictionReason / isFileOwner on their own.
 
 import (
 	"bytes"
@@ -12,6 +15,7 @@ import (
 	"os"
 	"path/filepath"
 	"sort"
+	"strings"
 
 	"github.com/Ptt-official-app/go-pttbbs/cache"
 	"github.com/Ptt-official-app/go-pttbbs/cmbbs"
@@ -34,6 +38,10 @@ var (
 	c08w      *world
 	c08boards []*c08Board // by bsel: WhoAmI (ordinary), ALLPOST (read-only), SYSOP (default board); then Note (cross-post source), ALLHIDPOST
 	c08dirHdr []ptttype.FileHeaderRaw
+	// every board directory a write could reach: one per board of the board cache, plus the log boards the code
+	// addresses by name whether or not the fixture has them
+	c08allDirs   []string
+	c08extraBrds []*c08Board // boards of the cache beyond c08boards (restored after a write, never addressed)
 )
 
 func (w *world) boardDir(name string) string {
@@ -78,6 +86,34 @@ func listing(dir string) string {
 	return fmt.Sprint(names)
 }
 
+// c08Snapshot: per board directory of the scratch BBS the entry names with size and mtime, and the bytes of .DIR;
+// plus the list of board directories itself (a write may create one).
+func c08Snapshot() string {
+	sb := &strings.Builder{}
+	for _, d := range c08allDirs {
+		es, err := os.ReadDir(d)
+		if err != nil {
+			fmt.Fprintf(sb, "%s:absent;", d)
+			continue
+		}
+		sb.WriteString(d)
+		sb.WriteByte('[')
+		for _, e := range es {
+			sb.WriteString(e.Name())
+			if info, err := e.Info(); err == nil && !e.IsDir() {
+				fmt.Fprintf(sb, ":%d:%d", info.Size(), info.ModTime().UnixNano())
+			}
+			sb.WriteByte(' ')
+		}
+		sb.WriteByte(']')
+		if b, err := os.ReadFile(filepath.Join(d, ".DIR")); err == nil {
+			sb.Write(b)
+		}
+		sb.WriteByte(';')
+	}
+	return sb.String()
+}
+
 func c08Setup() {
 	w := newWorld("CodingMan", "Kahou", "WhoAmI")
 	c08w = w
@@ -98,6 +134,33 @@ func c08Setup() {
 		_ = cache.SetBTotal(bid)
 		c08boards = append(c08boards, b)
 	}
+	seen := map[string]bool{}
+	for _, b := range c08boards {
+		seen[b.dir] = true
+		c08allDirs = append(c08allDirs, b.dir)
+	}
+	for i := 0; i < int(cache.Shm.Shm.BNumber); i++ {
+		name := types.CstrToString(cache.Shm.Shm.BCache[i].Brdname[:])
+		if name == "" || strings.ContainsAny(name, "/.") {
+			continue
+		}
+		d := w.boardDir(name)
+		if seen[d] {
+			continue
+		}
+		seen[d] = true
+		c08allDirs = append(c08allDirs, d)
+		if _, err := os.Stat(d); err == nil {
+			c08extraBrds = append(c08extraBrds, &c08Board{name: name, bid: ptttype.Bid(i + 1), id: toBoardID(name), dir: d, pristine: readDirFiles(d)})
+		}
+	}
+	for _, name := range []string{"NEWIDPOST", "UNANONYMOUS", "ALLHIDPOST", "ALLPOST", "Security", "junk", "deleted"} {
+		if d := w.boardDir(name); !seen[d] {
+			seen[d] = true
+			c08allDirs = append(c08allDirs, d)
+		}
+	}
+	sort.Strings(c08allDirs)
 	raw := src[".DIR"]
 	c08dirHdr = make([]ptttype.FileHeaderRaw, len(raw)/int(ptttype.FILE_HEADER_RAW_SZ))
 	must(binary.Read(bytes.NewReader(raw), binary.LittleEndian, c08dirHdr))
@@ -138,17 +201,78 @@ func c08ErrCode(err error) int64 {
 	return 19
 }
 
+func c08Bytes(toks []string, max int) []byte {
+	if len(toks) > max {
+		panic("badcase:len")
+	}
+	for _, t := range toks {
+		if v := ai(t); v < 0 || v > 255 {
+			panic("badcase:" + t)
+		}
+	}
+	return ab(toks)
+}
+
+func c08Range(s string, max uint64) uint64 {
+	v := ai(s)
+	if v < 0 || uint64(v) > max {
+		panic("badcase:" + s)
+	}
+	return uint64(v)
+}
+
+// op 7: getRestrictionReason(numLoginDays uint32, badPost, postLimitLogins, postLimitBadpost uint8)
+func c08RunReason(args [][]string) []string {
+	if len(args) != 2 || len(args[1]) != 4 {
+		return []string{"9"}
+	}
+	a := args[1]
+	reason, err := ptt.VerifGetRestrictionReason(uint32(c08Range(a[0], 0xffffffff)), uint8(c08Range(a[1], 255)), uint8(c08Range(a[2], 255)), uint8(c08Range(a[3], 255)))
+	if err != nil {
+		return errs(1)
+	}
+	return ok(oi(int64(reason)))
+}
+
+// op 8: isFileOwner(&FileHeaderRaw{Owner, Filename}, &UserecRaw{UserID, FirstLogin})
+func c08RunOwner(args [][]string) []string {
+	if len(args) != 5 || len(args[4]) != 1 {
+		return []string{"9"}
+	}
+	owner, uid, fname := c08Bytes(args[1], 14), c08Bytes(args[2], 13), c08Bytes(args[3], 28)
+	fl := ai(args[4][0])
+	if fl < -2147483648 || fl > 2147483647 {
+		return []string{"9"}
+	}
+	fhdr := &ptttype.FileHeaderRaw{}
+	copy(fhdr.Owner[:], owner)
+	copy(fhdr.Filename[:], fname)
+	user := &ptttype.UserecRaw{}
+	copy(user.UserID[:], uid)
+	user.FirstLogin = types.Time4(fl)
+	return ok(obool(ptt.VerifIsFileOwner(fhdr, user)))
+}
+
 func c08Run(args [][]string) []string {
 	w := c08w
 	op := ai(args[0][0])
-	if op < 1 || op > 6 || len(args) != 5 {
+	if op == 7 {
+		return c08RunReason(args)
+	}
+	if op == 8 {
+		return c08RunOwner(args)
+	}
+	if op < 1 || op > 6 || (len(args) != 5 && len(args) != 8) {
 		return []string{"9"}
 	}
 	u, rel, bd, art := args[1], args[2], args[3], args[4]
+	if len(u) != 5 || len(rel) != 5 || len(bd) != 6 || len(art) != 2 {
+		return []string{"9"}
+	}
 	level, o18, logindays, badpost, regbefore := uint32(au(u[0])), ai(u[1]) != 0, uint32(au(u[2])), uint8(au(u[3])), ai(u[4]) != 0
 	inbm, fr, ban, cdRel, pt := ai(rel[0]) != 0, ai(rel[1]) != 0, ai(rel[2]), ai(rel[3]), ai(rel[4])
 	bsel, battr, blevel, limLogins, limBad, nuser := ai(bd[0]), uint32(au(bd[1])), uint32(au(bd[2])), uint8(au(bd[3])), uint8(au(bd[4])), int32(ai(bd[5]))
-	aExists, aOwner := ai(art[0]) != 0, ai(art[1]) != 0
+	aExists, aOwner := ai(art[0]) != 0, ai(art[1])
 	if bsel < 0 || bsel > 2 {
 		return []string{"9"}
 	}
@@ -156,8 +280,34 @@ func c08Run(args [][]string) []string {
 	note := c08boards[3]
 	now := types.NowTS()
 
+	// the owner field of the addressed article and the cross-post source board
+	var ownerBytes []byte
+	var sattr, slevel uint32
+	var slimLogins, slimBad uint8
+	var sban int64
+	var sinbm, sfr bool
+	switch {
+	case len(args) == 5 && aOwner == 1:
+		ownerBytes = types.CstrToBytes(w.userID[:])
+	case len(args) == 5 && aOwner == 0:
+		ownerBytes = types.CstrToBytes(w.otherID[:])
+	case len(args) == 8 && aOwner == 2:
+		ownerBytes = c08Bytes(args[5], 14)
+		uidBytes := c08Bytes(args[6], 13)
+		if !bytes.Equal(types.CstrToBytes(append(append([]byte{}, uidBytes...), 0)), types.CstrToBytes(w.userID[:])) {
+			return []string{"9"} // the caller of the four operations is the fixture user
+		}
+		sg := args[7]
+		if len(sg) != 7 {
+			return []string{"9"}
+		}
+		sattr, slevel, slimLogins, slimBad = uint32(au(sg[0])), uint32(au(sg[1])), uint8(au(sg[2])), uint8(au(sg[3]))
+		sban, sinbm, sfr = ai(sg[4]), ai(sg[5]) != 0, ai(sg[6]) != 0
+	default:
+		return []string{"9"}
+	}
+
 	// ---- plant
-	w.bid, w.boardID, w.baseBoard = tb.bid, tb.id, tb.base
 	w.plantUser(level, o18, func(r *ptttype.UserecRaw) {
 		r.NumLoginDays = logindays
 		r.BadPost = badpost
@@ -168,33 +318,43 @@ func c08Run(args [][]string) []string {
 			r.FirstLogin = 2000000000
 		}
 	})
+	plantTag := func(name string, ban int64) {
+		tag := filepath.Join(w.env.home, "home", "C", "CodingMan", "banned", "b_"+name)
+		switch ban {
+		case 0:
+			os.Remove(tag)
+		case 1:
+			must(os.WriteFile(tag, []byte(fmt.Sprintf("%d\nverif\n", int64(now)+1000)), 0o644))
+		default:
+			must(os.WriteFile(tag, []byte(fmt.Sprintf("%d\nverif\n", int64(now)-1000)), 0o644))
+		}
+	}
+	// the source board of a cross-post (Note): planted on every row, so that the three other operations are
+	// also run next to a board that would refuse the caller
+	w.bid, w.boardID, w.baseBoard = note.bid, note.id, note.base
+	w.plantBoard(sattr, slevel, sinbm, sfr, false, func(b *ptttype.BoardHeaderRaw) {
+		b.PostLimitLogins = slimLogins
+		b.PostLimitBadpost = slimBad
+	})
+	plantTag(note.name, sban)
+	w.bid, w.boardID, w.baseBoard = tb.bid, tb.id, tb.base
 	w.plantBoard(battr, blevel, inbm, fr, false, func(b *ptttype.BoardHeaderRaw) {
 		b.PostLimitLogins = limLogins
 		b.PostLimitBadpost = limBad
 		b.NUser = nuser
 	})
-	tag := filepath.Join(w.env.home, "home", "C", "CodingMan", "banned", "b_"+tb.name)
-	switch ban {
-	case 0:
-		os.Remove(tag)
-	case 1:
-		must(os.WriteFile(tag, []byte(fmt.Sprintf("%d\nverif\n", int64(now)+1000)), 0o644))
-	default:
-		must(os.WriteFile(tag, []byte(fmt.Sprintf("%d\nverif\n", int64(now)-1000)), 0o644))
-	}
+	plantTag(tb.name, ban)
 	cache.Shm.Shm.CooldownTime[w.uid-1] = types.Time4((int64(now)+cdRel)&0x7FFFFFF0) | types.Time4(pt&0xf)
 	hdrs := make([]ptttype.FileHeaderRaw, len(c08dirHdr))
 	copy(hdrs, c08dirHdr)
 	hdrs[0].Owner = ptttype.Owner_t{}
-	if aOwner {
-		copy(hdrs[0].Owner[:], w.userID[:])
-	} else {
-		copy(hdrs[0].Owner[:], w.otherID[:])
-	}
+	copy(hdrs[0].Owner[:], ownerBytes)
 	buf := &bytes.Buffer{}
 	must(binary.Write(buf, binary.LittleEndian, hdrs))
 	dirFile := filepath.Join(tb.dir, ".DIR")
-	must(os.WriteFile(dirFile, buf.Bytes(), 0o644))
+	if cur, err := os.ReadFile(dirFile); err != nil || !bytes.Equal(cur, buf.Bytes()) {
+		must(os.WriteFile(dirFile, buf.Bytes(), 0o644))
+	}
 	_ = cache.SetBTotal(tb.bid)
 
 	fn := &ptttype.Filename_t{}
@@ -220,7 +380,8 @@ func c08Run(args [][]string) []string {
 
 	// ---- before
 	dir0, _ := os.ReadFile(dirFile)
-	ls0 := listing(tb.dir)
+	es0, _ := os.ReadDir(tb.dir)
+	snap0 := c08Snapshot()
 	rec0, _ := cmbbs.PasswdQuery(w.uid)
 
 	var err error
@@ -240,29 +401,46 @@ func c08Run(args [][]string) []string {
 
 	// ---- after
 	dir1, _ := os.ReadFile(dirFile)
-	ls1 := listing(tb.dir)
+	snap1 := c08Snapshot()
 	rec1, _ := cmbbs.PasswdQuery(w.uid)
 	dDir := (len(dir1) - len(dir0)) / int(ptttype.FILE_HEADER_RAW_SZ)
-	es0, _ := os.ReadDir(tb.dir)
-	dFiles := len(es0) - len(tb.pristine)
+	es1, _ := os.ReadDir(tb.dir)
+	dFiles := len(es1) - len(es0)
 	dPosts := int64(rec1.NumPosts) - int64(rec0.NumPosts)
 	trace := 0
 	if code != 0 {
 		b0, b1 := &bytes.Buffer{}, &bytes.Buffer{}
 		_ = binary.Write(b0, binary.LittleEndian, rec0)
 		_ = binary.Write(b1, binary.LittleEndian, rec1)
-		if !bytes.Equal(dir0, dir1) || ls0 != ls1 || !bytes.Equal(b0.Bytes(), b1.Bytes()) {
+		if snap0 != snap1 || !bytes.Equal(b0.Bytes(), b1.Bytes()) {
 			trace = 1
 		}
 	}
-	if code == 0 || trace != 0 || ls0 != ls1 {
-		tb.restore()
-		note.restore()
-		c08boards[1].restore()
-		c08boards[4].restore()
+	if code == 0 || trace != 0 || snap0 != snap1 {
+		for _, b := range c08boards {
+			b.restore()
+		}
+		for _, b := range c08extraBrds {
+			b.restore()
+		}
+		for _, d := range c08allDirs { // a board directory that did not exist before
+			known := false
+			for _, b := range c08boards {
+				known = known || b.dir == d
+			}
+			for _, b := range c08extraBrds {
+				known = known || b.dir == d
+			}
+			if !known {
+				os.RemoveAll(d)
+			}
+		}
 	}
 	if code == 19 && os.Getenv("VERIF_SHOW_PANIC") != "" {
 		fmt.Fprintln(os.Stderr, "other error:", err)
+	}
+	if trace != 0 && os.Getenv("VERIF_SHOW_PANIC") != "" {
+		fmt.Fprintf(os.Stderr, "trace:\nbefore %q\nafter  %q\n", snap0, snap1)
 	}
 	return ok(oi(code), oi(int64(dDir)), oi(int64(dFiles)), oi(dPosts), oi(int64(trace)))
 }
